@@ -164,7 +164,42 @@ func b01(b bool) string {
 	return "0"
 }
 func (o aopts) flags() string { return b01(o.neg) + b01(o.allow) + b01(o.ensure) + b01(o.esc) }
+
+// In the history and concurrency streams calls with the same settings share ONE ApplyOptions
+// object, as a caller who keeps its options in a variable does: the library must treat it as
+// read-only and must keep no state in it.
+var (
+	sharedOptsMu sync.Mutex
+	sharedOpts   = map[aopts]*jsonpatch.ApplyOptions{}
+)
+
 func (o aopts) v5() *jsonpatch.ApplyOptions {
+	if holdResults {
+		sharedOptsMu.Lock()
+		defer sharedOptsMu.Unlock()
+		if op, ok := sharedOpts[o]; ok {
+			return op
+		}
+		op := o.fresh()
+		sharedOpts[o] = op
+		return op
+	}
+	return o.fresh()
+}
+
+// the exported fields of the shared object still say what they were set to
+func (o aopts) sharedIntact() bool {
+	sharedOptsMu.Lock()
+	defer sharedOptsMu.Unlock()
+	op, ok := sharedOpts[o]
+	if !ok {
+		return true
+	}
+	return op.SupportNegativeIndices == o.neg && op.AllowMissingPathOnRemove == o.allow && op.EnsurePathExistsOnAdd == o.ensure &&
+		op.EscapeHTML == o.esc && op.AccumulatedCopySizeLimit == o.limit
+}
+
+func (o aopts) fresh() *jsonpatch.ApplyOptions {
 	op := jsonpatch.NewApplyOptions()
 	op.SupportNegativeIndices = o.neg
 	op.AllowMissingPathOnRemove = o.allow
